@@ -105,6 +105,17 @@ def run(ctx):
         ctx.mc("Track", f"Track_MC{pf}.cfg" if quick else f"Track_MCt{pf}.cfg",
                must_cover=["Create", "Learn", "CloneN|Clone", "MutateN|Mutate", "Save", "LoadN|Load", "Discard"], timeout=1500)
 
+    # negative controls: the invariants reject a learner without the (1 - done) factor, one that bootstraps from the online
+    # table, and a clone that restarts the policy-delay counter
+    negs = {}
+    for module, cfg, inv in (("Bellman_MC", "Bellman_NegMask.cfg", "DoneMasks"), ("Bellman_MC", "Bellman_NegOnline.cfg", "Bootstraps"),
+                             ("Track_MC", "Track_Neg.cfg", "BoundedLag")):
+        neg = tlc.model_check(module, cfg, coverage=False)
+        if neg.ok or neg.violated_name != inv:
+            raise Vacuous(f"negative control {cfg} did not violate {inv} (ok={neg.ok}, violated={neg.violated_name})")
+        negs[cfg] = {"violated": neg.violated_name, "distinct_states": neg.distinct}
+    ctx.extra["negative_controls"] = negs
+
     # ------------------------------------------------------------------ M2: dumped cases -> real learn() on tabular networks
     r = tlc.dump("Bellman_MC", "Bellman_Dumpq.cfg" if quick else "Bellman_Dump.cfg", heap="8g", timeout=3000)
     cases = r.tagged.get("CASE", [])
@@ -189,9 +200,9 @@ def run(ctx):
     by_pf = {1: [], 2: [], 3: []}
     j = 0
     for rep in range(2 if quick else 8):
-        for (variant, pf) in combos:
+        for ci, (variant, pf) in enumerate(combos):
             fam = "vector" if quick or rep % 4 != 3 else ["image", "dict", "discrete"][j % 3]
-            tau = [0.5, 0.25][(j + rep) % 2]
+            tau = [0.25, 0.5][(ci + rep) % 2]            # every learner sees both (tau = 1/2 cannot tell tau from 1 - tau)
             ops = bm.script(random.Random(ctx.seed * 1009 + j), pf, length=13 if quick else 22)
             t = bm.run_track(variant, fam, ops, pf=pf, tau=tau, seed=ctx.seed * 17 + j)
             by_pf[pf].append(t)
@@ -200,8 +211,11 @@ def run(ctx):
     allt = [t for ts in by_pf.values() for t in ts]
     ctx.sample({"track_cfg": {k_: allt[9]["cfg"][k_] for k_ in ("algo", "pf", "tau", "targets")},
                 "events": [(e["op"], e["a"] or e["c"], e["lc"], e["cls"]) for e in allt[9]["ev"]]})
+    rejected = set()
     for pf, ts in by_pf.items():
-        ctx.validate("Track_Trace", track_cfg(pf), ts, sig=track_sig, what=track_what, chunk=100)
+        for t, v in zip(ts, ctx.validate("Track_Trace", track_cfg(pf), ts, sig=track_sig, what=track_what, chunk=100)):
+            if not v.accepted:
+                rejected.add((t["cfg"]["algo"], pf))
     # vacuity: every learner showed a decided lerp, delayed learners a decided noop, and learn steps directly follow
     # clone / mutation / load
     seen = {}
@@ -213,6 +227,8 @@ def run(ctx):
                 s.add("after-" + e["after"].split(":")[0])
     ctx.extra["track_classes_seen"] = {f"{a}/pf{p}": sorted(v) for (a, p), v in seen.items()}
     for (a, p), s in seen.items():
+        if (a, p) in rejected:
+            continue                    # reported as a violation above
         if "lerp" not in s or (p > 1 and "noop" not in s):
             raise Vacuous(f"no decided lerp / noop observed for {a} pf={p}: {sorted(s)}")
     everything = set().union(*seen.values())
